@@ -279,7 +279,7 @@ func (l *layout) rawOffsetOf(u int64) (int64, bool) {
 	return f.rawData + (u - f.uOff), true
 }
 
-func cutPlan(r *rand.Rand, mode string, l *layout) []int64 {
+func cutPlan(r *rand.Rand, mode string, l *layout, maxCuts int) []int64 {
 	var cuts []int64
 	n := l.rawLen
 	randomCuts := func(maxCuts int) {
@@ -309,7 +309,7 @@ func cutPlan(r *rand.Rand, mode string, l *layout) []int64 {
 			cuts = append(cuts, pos)
 		}
 	case "random":
-		randomCuts(4000)
+		randomCuts(maxCuts)
 		for t := 0; t < 4 && len(l.pOff) > 0; t++ {
 			if raw, ok := l.rawOffsetOf(l.pOff[r.Intn(len(l.pOff))] + 1 + int64(r.Intn(7))); ok {
 				cuts = append(cuts, raw)
@@ -337,7 +337,7 @@ func cutPlan(r *rand.Rand, mode string, l *layout) []int64 {
 			f := l.frames[r.Intn(len(l.frames))]
 			cuts = append(cuts, f.rawStart+1+int64(r.Intn(3)))
 		}
-		randomCuts(300)
+		randomCuts(maxCuts / 10)
 	}
 	sort.Slice(cuts, func(i, j int) bool { return cuts[i] < cuts[j] })
 	return cuts
@@ -875,18 +875,23 @@ func runStreamCaseOnce(se *streamEnv, c streamCase, noPoison bool) (pv *pendingV
 		broken("cannot parse the snappy framing of the snapshot file: " + err.Error())
 		return
 	}
-	if plan.Cuts == "tiny" && (len(raw1) > 64*1024 || (plan.Transport == "grpc" && len(raw1) > 12*1024)) {
+	// every chunk is one message; over real grpc with a compressor each costs milliseconds in the race build
+	maxChunks := 6000
+	if plan.Transport == "grpc" {
+		maxChunks = 500
+	}
+	if plan.Cuts == "tiny" && len(raw1) > maxChunks*6 {
 		plan.Cuts = "random"
 		w.Plan = plan
 	}
-	for int64(len(raw1))/int64(plan.CopyBuf) > 6000 {
+	for len(raw1)/plan.CopyBuf > maxChunks {
 		plan.CopyBuf *= 8 // keep the number of chunks of a stream bounded
 	}
 	if strings.HasPrefix(plan.Send, "production") {
 		plan.Cuts = "n/a (production chunking)"
 	}
 	w.Plan = plan
-	job := &sendJob{path: sf1.Path(), plan: plan, cuts: cutPlan(rnd, plan.Cuts, lay), size: int64(len(raw1)), seed: c.Seed}
+	job := &sendJob{path: sf1.Path(), plan: plan, cuts: cutPlan(rnd, plan.Cuts, lay, maxChunks*2/3), size: int64(len(raw1)), seed: c.Seed}
 	name := fmt.Sprintf("c%d-%d", c.Idx, c.Seed)
 
 	var result readResult
@@ -1157,6 +1162,33 @@ func judgeRead(fail func(sig, stage, detail string), sigPrefix, stage string, en
 		}
 	}
 	return true
+}
+
+// observeEmptyMessage records (without judging, see the assumptions) what the snapshot file does
+// with a message whose encoding is empty (the all-default Command).
+func observeEmptyMessage(r *ev.Run) {
+	sf, err := snapshot.NewTemp()
+	if err != nil {
+		return
+	}
+	defer func() { _ = sf.Close(); _ = os.Remove(sf.Path()) }()
+	a, _ := (&pb.Command{Table: []byte("t"), Type: pb.Command_PUT, Kv: &pb.KeyValue{Key: []byte("a")}}).MarshalVT()
+	e, _ := (&pb.Command{}).MarshalVT()
+	b, _ := (&pb.Command{Table: []byte("t"), Type: pb.Command_PUT, Kv: &pb.KeyValue{Key: []byte("b")}}).MarshalVT()
+	for _, m := range [][]byte{a, e, b} {
+		if _, err := sf.Write(m); err != nil {
+			return
+		}
+	}
+	if sf.Sync() != nil {
+		return
+	}
+	if _, err := sf.Seek(0, io.SeekStart); err != nil {
+		return
+	}
+	res := readMessages(sf)
+	r.Extra("observed_not_judged_message_with_empty_encoding", fmt.Sprintf("wrote 3 messages to a snapshot file, the middle one the all-default Command (%d-byte encoding); read back %d messages (err=%v): "+
+		"an empty write is a no-op, so such a message leaves no frame", len(e), len(res.msgs), res.err))
 }
 
 func streamPlanCases(r *ev.Run) []streamCase {
